@@ -51,6 +51,30 @@ S = {
  "C17-1": ("C17", "UniqueArc::serialize wraps in serialize_newtype_struct", "UniqueArc + exact comparison of Serializer calls"),
  "C17-2": ("C17", "Arc::deserialize returns a clone of a forgotten handle: count 2", "count / uniqueness inspection after a successful deserialisation"),
  "C17-3": ("C17", "UniqueArc::deserialize allocates the slot before deserialising: an error leaks the block", "a failing deserializer + allocation accounting"),
+ "C01-4": ("C01", "ArcInner::offset_of_data extends the count layout with a byte array: the data offset is always 8", "payload aligned above 8 through any data-pointer round trip (into_raw/from_raw, OffsetArc, ArcBorrow, ArcUnion, arc-swap)"),
+ "C01-5": ("C01", "arc-swap RefCnt::into_ptr for Arc returns as_ptr of a handle it then drops", "feature arc-swap: an Arc stored in an ArcSwapAny"),
+ "C01-6": ("C01", "UniqueArc::into_inner fast path for zero-sized T never frees the block", "zero-sized payload released by into_inner / try_unwrap / unwrap_or_clone"),
+ "C02-4": ("C02", "OffsetArc::drop does its own fetch_sub with Acquire instead of Release", "a non-final OffsetArc drop followed by another thread's final drop; happens-before checker only"),
+ "C02-5": ("C02", "Arc::clone: if load()==1 { store(2) } else { fetch_add }", "count exactly 1 and two threads cloning through the same handle (shared &Arc / ArcBorrow copies)"),
+ "C02-6": ("C02", "ThinArc::drop decrements first and reads header.length from the payload afterwards", "a non-final ThinArc drop with another thread's final drop and free landing before the length read"),
+ "C05-4": ("C05", "new_uninit_slice reserves bytes through the [MaybeUninit<u8>] instantiation: element alignment never reaches the allocator", "new_uninit_slice with align_of::<T>() > 8"),
+ "C05-5": ("C05", "ThinArc::drop deallocates with the layout of the thin [T;0] pointer", "last handle dropped is a ThinArc with a non-empty slice"),
+ "C05-6": ("C05", "allocate_for_header_and_slice sums header+padding+elements with wrapping_add", "length within a few bytes of usize::MAX / size_of::<T>() with a non-trivial header"),
+ "C06-4": ("C06", "FromIterator takes iter.take(lower) down the exact path for non-exact hints with lower > 0", "an iterator with 0 < lower and upper != Some(lower) yielding more than lower items"),
+ "C06-5": ("C06", "from_header_and_vec frees the Vec buffer with Vec::from_raw_parts(src, 0, len)", "a Vec with capacity > len"),
+ "C06-6": ("C06", "from_header_and_str copies chars().count() bytes", "non-ASCII text"),
+ "C07-4": ("C07", "unwrap_or_clone keeps its handle in ManuallyDrop across T::clone and releases it afterwards", "Clone panics on a shared Arc: the release is skipped"),
+ "C07-5": ("C07", "from_header_and_iter queries items.len() twice (allocation vs fill loop)", "an ExactSizeIterator whose answer changes between calls"),
+ "C07-6": ("C07", "try_allocate_for_layout turns a null allocation into expect(..): a catchable panic", "allocation #1 of a header/slice constructor fails"),
+ "C10-4": ("C10", "Arc::into_thin wraps its argument in ManuallyDrop before the length assert: a refused Arc leaks", "a refused into_thin (recorded length != slice length)"),
+ "C10-5": ("C10", "with_arc_mut's guard releases the old allocation a second time when the callback replaced the Arc", "callback installs a different allocation (with or without panicking)"),
+ "C10-6": ("C10", "thin_to_thick reads the length through ArcInner<HeaderWithLength<H>>: wrong offset for over-aligned elements", "element type with alignment 16 or more"),
+ "C11-4": ("C11", "offset_of_data caps the payload alignment at 16", "payload aligned to 32/64 through any from_raw-based path"),
+ "C11-5": ("C11", "from_raw_slice returns a fresh empty allocation for length-0 pointers", "zero-length Arc<[T]> through into_raw -> from_raw_slice"),
+ "C11-6": ("C11", "ArcBorrow's unsize CoerciblePtr returns the block pointer", "feature unsize: an unsized ArcBorrow"),
+ "C14-4": ("C14", "Hash for Arc<T> returns early for zero-size payloads", "hash / Borrow lookup with an empty str or empty slice"),
+ "C14-5": ("C14", "Debug for OffsetArc formats through write!(\"{:?}\"): formatter flags dropped", "{:?} with a flag ({:#?}, width, precision) on an OffsetArc"),
+ "C14-6": ("C14", "PartialOrd for ThinArc compares the slice before the header", "a pair differing in both header and slice with the two orders disagreeing; partial_cmp/</<=/>/>= only"),
 }
 detect = {}
 dp = os.path.join(ROOT, "seeded", "detect.json")
